@@ -5,12 +5,13 @@ set -u
 PATCH="$1"; TAG="$2"; shift 2
 WT="/tmp/ts-$TAG"
 git -C /repo worktree add -q --detach "$WT" HEAD || exit 2
-trap 'git -C /repo worktree remove --force "$WT" >/dev/null 2>&1; rm -rf "$WT" "/verif/build/"*"-$TAG"' EXIT
+VERIF_DIR="${VERIF_DIR:-/verif}"
+trap 'git -C /repo worktree remove --force "$WT" >/dev/null 2>&1; rm -rf "$WT" "$VERIF_DIR/build/"*"-$TAG"' EXIT
 git -C "$WT" apply "$PATCH" || { echo "patch does not apply"; exit 2; }
 export VERIF_REPO="$WT" VERIF_BUILD_TAG="$TAG" VERIF_EVIDENCE_DIR="/tmp/ts-ev-$TAG" VERIF_REPLAY_DIR="/tmp/ts-ev-$TAG/replays"
 for id in "$@"; do
   start=$(date +%s)
-  out=$(/verif/check "$id" --tier quick 2>&1); rc=$?; echo "$out" > /tmp/ts-last-$TAG-$id.log
+  out=$("$VERIF_DIR/check" "$id" --tier quick 2>&1); rc=$?; echo "$out" > /tmp/ts-last-$TAG-$id.log
   v=$(echo "$out" | grep -c '^VIOLATION')
   first=$(echo "$out" | grep -A2 '^VIOLATION' | head -3 | tr '\n' ' ' | cut -c1-400)
   te=$(echo "$out" | grep '^TOOL-ERROR' | head -2 | tr '\n' ' ' | cut -c1-300)
